@@ -8,7 +8,7 @@
 (***************************************************************************)
 EXTENDS Integers, Sequences, FiniteSets, TLC, Json
 
-CONSTANTS MaxC, MaxLong, MaxJobs
+CONSTANTS MaxC, MaxLong, MaxJobs, MaxWide, WideJobs
 
 Pairs == {<<l, r>> : l \in {1, 2}, r \in {3, 4}}
 Inj(n) == {s \in [1..n -> Pairs] : \A a, b \in 1..n : a # b => s[a] # s[b]}
@@ -18,6 +18,12 @@ Candsets == UNION {Inj(n) : n \in 0..MaxC}
 (* k jobs - every (length, jobs) combination, so that every chunk boundary position occurs        *)
 LongPairs == [n \in 1..16 |-> <<1 + ((n - 1) % 4), 5 + ((n - 1) \div 4)>>]
 Longs == {<<n, k>> : n \in 1..MaxLong, k \in 2..MaxJobs}
+
+(* wide candidate sets: n rows cycling through the same enumeration (key pairs repeat; rows are told *)
+(* apart by _id), split over k jobs for every k in WideJobs - chunk boundaries at every position,   *)
+(* more jobs than rows and more jobs than processors                                               *)
+WidePairs(n) == [j \in 1..n |-> LongPairs[1 + ((j - 1) % 16)]]
+Wides == {<<n, k>> : n \in (MaxLong + 1)..MaxWide, k \in WideJobs}
 
 VARIABLES cand, miss, jobs
 vars == <<cand, miss, jobs>>
@@ -29,6 +35,11 @@ Init == \/ /\ cand \in Candsets
         \/ \E nk \in Longs :
               /\ cand = SubSeq(LongPairs, 1, nk[1])
               /\ miss \in {{}, {2}}
+              /\ jobs = nk[2]
+              /\ PrintT(<<"GEN", ToJson([kind |-> "long", C |-> cand, M |-> miss, jobs |-> jobs])>>)
+        \/ \E nk \in Wides :
+              /\ cand = WidePairs(nk[1])
+              /\ miss = IF nk[1] % 3 = 0 THEN {2} ELSE {}
               /\ jobs = nk[2]
               /\ PrintT(<<"GEN", ToJson([kind |-> "long", C |-> cand, M |-> miss, jobs |-> jobs])>>)
 Next == UNCHANGED vars
